@@ -185,6 +185,8 @@ class Exec:
                 i = base.ty.field_index(attr)
                 return SV(base.ty.acc(i)(base.z), base.ty.fields[i][1])
             return BoundMethod(base, attr)
+        if isinstance(base, PyDict) and attr == "get":
+            return PyDictGet(base)
         if isinstance(base, (str, tuple)) and not isinstance(base, enum.Enum):
             return BoundMethod(base, attr)
         if isinstance(base, View):
@@ -653,7 +655,7 @@ class Exec:
         if hasattr(fn, "lemma"):
             return fn.apply(self, args, kwargs)
         if isinstance(fn, PyDictGet):
-            return fn.dict.get(self, args, node)
+            return fn.dict.select(self, args[0], args[1] if len(args) > 1 else None, node)
         raise NeedsContract(f"call of {fn!r} at {self.where(node)}")
 
     # the remaining pieces (builtins, list methods, calls by contract, statements)
@@ -672,6 +674,12 @@ class BoundMethod:
 class Builtin:
     def __init__(self, name):
         self.name = name
+
+    def __eq__(self, o):
+        return isinstance(o, Builtin) and o.name == self.name
+
+    def __hash__(self):
+        return hash(("builtin", self.name))
 
     def __repr__(self):
         return f"<builtin {self.name}>"
